@@ -249,11 +249,15 @@ def run_chunk(idx, scens, timeout):
         fh.write('\n'.join(flat) + '\n')
     wd = os.path.join(d, f'wd{idx}')
     os.makedirs(wd, exist_ok=True)
-    rc, out = sh([HARNESS_BIN, 'run', sp, '--dir', wd], timeout=timeout,
-                 env={'RUST_LOG': 'off', 'RUST_BACKTRACE': '0'})
+    e = dict(os.environ)
+    e.update({'RUST_LOG': 'off', 'RUST_BACKTRACE': '0'})
+    try:
+        pr = subprocess.run([HARNESS_BIN, 'run', sp, '--dir', wd], stdout=subprocess.PIPE, stderr=subprocess.DEVNULL,
+                            timeout=timeout, env=e)
+        rc, out = pr.returncode, pr.stdout.decode('utf-8', 'replace')
+    except subprocess.TimeoutExpired as ex:
+        rc, out = 124, (ex.stdout or b'').decode('utf-8', 'replace')
     impl = [l for l in out.splitlines()]
-    # harness stdout may be interleaved with panic messages on stderr: keep only protocol lines
-    impl = [l for l in impl if is_protocol_line(l)]
     crashed = rc != 0 or len(impl) != len(flat)
     if len(impl) < len(flat):
         impl += ['crash'] * (len(flat) - len(impl))
@@ -339,6 +343,7 @@ def judge(res, pdef):
     """classify one scenario result for a property definition"""
     findings = []
     nomodel = False
+    disagreed = False
     for i, (cmd, impl, model, orc) in enumerate(zip(res['script'], res['impl'], res['model'], res['oracle'])):
         c = cmd_of(cmd)
         if c == 'nomodel':
@@ -355,7 +360,7 @@ def judge(res, pdef):
             if pv:
                 findings.append(Finding('violation', res, i, pv))
                 break
-        if orc_applies and orc.startswith('MISMATCH'):
+        if orc_applies and orc.startswith('MISMATCH') and not (nomodel and pdef.get('no_oracle_after_nomodel')):
             verdict = orc
             if nomodel and pdef.get('tolerate_err_after_damage') and impl.startswith(('err ', 'list')) and 'err ' in impl:
                 verdict = None     # after injected damage a read may fail; it must not return wrong data
@@ -368,12 +373,15 @@ def judge(res, pdef):
             break
         if c in ('dmgsweep', 'crashsweep', 'flipsweep', 'faultsweep', 'cancelsweep') and impl.startswith('sweep ok'):
             impl = 'sweep ok'      # the count of damaged copies is reported, not compared
-        if impl != model and not nomodel and c not in pdef.get('impl_only_cmds', ()):
+        impl_only = c in pdef.get('impl_only_cmds', ()) or (c in pdef.get('impl_only_if_ct', ()) and ' rt=ct' in res['script'][0])
+        if impl != model and not nomodel and not impl_only and not disagreed:
+            # remember the first disagreement, but keep looking: the oracle may confirm a violation a few
+            # lines later (e.g. at the `states` probe that follows a delete)
+            disagreed = True
             if is_p:
                 findings.append(Finding('model-disagreement', res, i, f'impl=[{impl}] model=[{model}] oracle=[{orc}]'))
             else:
                 findings.append(Finding('aux-disagreement', res, i, f'impl=[{impl}] model=[{model}]'))
-            break
     return findings
 
 
@@ -397,7 +405,8 @@ def shrink(scen, pdef, still_fails, budget=60):
         return head + [l for u in units for l in u]
     n = 2
     tries = 0
-    while len(body) >= 2 and tries < budget:
+    t_end = time.time() + (45 if len(lines) < 3000 else 20)
+    while len(body) >= 2 and tries < budget and time.time() < t_end:
         sz = max(1, len(body) // n)
         removed = False
         for start in range(0, len(body), sz):
